@@ -247,6 +247,9 @@ func c14Inputs(c *ctx, emit func(label string, bs []byte)) {
 		seeds = append(seeds, bytes.Repeat([]byte{t}, 1200000))
 	}
 	seeds = append(seeds, bytes.Repeat([]byte{'C', 0, 0x90}, 400000))
+	// ... and a chain of objects each held in a struct-typed field of the one before: such a field is read
+	// by the struct reader, which does not pass through the generic value reader
+	seeds = append(seeds, append([]byte{'C', 0x04, 'N', 'o', 'd', 'e', 0x91, 0x04, 'n', 'e', 'x', 't'}, bytes.Repeat([]byte{0x60}, 1200000)...))
 	// declared counts of MODERATE size (below any sanity bound a reader might apply to huge counts),
 	// many times over, with nothing behind them: allocation must follow the bytes, not the counts
 	for _, cnt := range []int{1025, 5000, 60000} {
@@ -270,6 +273,22 @@ func c14Inputs(c *ctx, emit func(label string, bs []byte)) {
 		}
 		seeds = append(seeds, append(sb, 'S', 0, 1, 'z'), append(bb, 'B', 0, 1, 7), append(append([]byte{0x57}, sb...), 0x01, 'z', 'Z'))
 	}
+	// one open list holding 40000 objects whose list field refers back to that enclosing list, then 40000
+	// more elements: every append to a list must cost the same whoever refers to it
+	{
+		b := append([]byte{0x57, 'C', 0x05}, []byte("Lists")...)
+		b = append(b, 0x91, 0x03, 'a', 'n', 'y')
+		b = append(b, bytes.Repeat([]byte{0x60, 0x51, 0x90}, 40000)...)
+		b = append(b, bytes.Repeat([]byte{0x90}, 40000)...)
+		seeds = append(seeds, append(b, 'Z'))
+	}
+	// a rejected message must leave nothing behind in the process: a class with a field of the empty
+	// name and an instance of it (rejected), then a plain instance of the same class (every input of
+	// this run is decoded by the same worker process, so whatever a rejected message leaves locked or
+	// cached meets the next one)
+	seeds = append(seeds,
+		[]byte{'C', 0x05, 'I', 'n', 'n', 'e', 'r', 0x91, 0x00, 0x60, 0x01, 'x'},
+		[]byte{'C', 0x05, 'I', 'n', 'n', 'e', 'r', 0x92, 0x01, 'a', 0x01, 's', 0x60, 0x91, 0x01, 'x'})
 	for _, s := range seeds {
 		emit("seed", s)
 	}
@@ -382,6 +401,9 @@ func runC14(c *ctx) {
 		for _, tm := range []string{"known", "empty", "wrong", "forest", "niltype"} {
 			for _, e := range c14Entries {
 				if in["entry"] == e && in["tm"] == tm {
+					if p, ok := in["previous_input_of_the_same_process"].(string); ok {
+						w.run(e, tm, unhx(p), 10*time.Second)
+					}
 					c14One(c, &w, e, tm, unhx(only), "replay")
 				}
 			}
@@ -411,6 +433,8 @@ func runC14(c *ctx) {
 	})
 }
 
+var c14Prev []byte
+
 func c14One(c *ctx, w **worker, entry, tm string, bs []byte, label string) {
 	if c.unclassified() >= 25 {
 		c.dist["skipped_after_25_failures"]++ // the verdict is settled; each further runaway costs a watchdog period
@@ -425,6 +449,10 @@ func c14One(c *ctx, w **worker, entry, tm string, bs []byte, label string) {
 	res, f := (*w).run(entry, tm, bs, 10*time.Second)
 	c.dist["outcome:"+res]++
 	in := map[string]interface{}{"op": "hostile", "entry": entry, "tm": tm, "bytes": hx(bs), "label": label}
+	if label != "replay" && len(c14Prev) > 0 && len(c14Prev) <= 600 {
+		in["previous_input_of_the_same_process"] = hx(c14Prev) // state left behind by it is part of the case
+	}
+	c14Prev = bs
 	if len(bs) > 600 {
 		in["bytes"] = hx(bs[:600])
 		in["truncated_len"] = len(bs)
